@@ -27,6 +27,21 @@ func main() {
 	switch os.Args[1] {
 	case "check":
 		os.Exit(cmdCheck(os.Args[2:]))
+	case "replay":
+		// gosym replay <PROP> <harness> <dir-with-model.json>: native run of a stored instance
+		prop := findProp(os.Args[2])
+		var spec *HarnessSpec
+		for _, h := range prop.Harnesses {
+			if h.Name == os.Args[3] {
+				hh := *h
+				hh.Prop = prop.ID
+				spec = &hh
+			}
+		}
+		v := &Violation{Harness: os.Args[3], Label: "(replay)"}
+		fmt.Println(nativeReplay(nil, prop, spec, v, os.Args[4]))
+		bs, _ := os.ReadFile(os.Args[4] + "/replay.log")
+		os.Stdout.Write(bs)
 	case "list":
 		for _, p := range allProps() {
 			fmt.Println(p.ID, len(p.Harnesses), "harnesses", p.Pkgs)
